@@ -327,10 +327,11 @@ def consume (cfg : Cfg) (s : St) : St :=
 
 /-- `ClientResponse.read()` from its start up to the next suspension -/
 def readBody (cfg : Cfg) (s : St) : St × Option Exc :=
-  if s.readErr then (s, some .sockTimeout) else
+  if s.readErr then (s, some .sockTimeout)          -- `if self._exception is not None: raise`
+  else if s.tcCancelled then (s, some .timeout)     -- `_read_nowait: self._timer.assert_timeout()` / `_wait: with self._timer`
+  else
   let s := if s.buffered > 0 then consume cfg s else s
   if s.eof then (finish (releaseConn cfg s) .ok, none)
-  else if s.tcCancelled then (s, some .timeout)
   else ({ s with pc := .body, wake := none }, none)
 
 /-- `ClientResponse.start` resumed with the message; rest of `_request`; user code up to the next suspension -/
